@@ -170,6 +170,14 @@ class Scenario:
                 history.append((key, desc, w.now_ms, None))
                 await task
 
+            async def op_reregister(host: Any, key: str, desc: Svc) -> None:
+                # the application changes the object it registered and withdrew earlier, and registers it again
+                info = infos[key]
+                info.port = desc.port
+                task = await host.zc.async_register_service(info)
+                history.append((key, desc, w.now_ms, None))
+                await task
+
             async def op_close(host: Any) -> None:
                 now = w.now_ms
                 for i, (n, d, since, until) in enumerate(history):
@@ -207,6 +215,16 @@ class Scenario:
                 ops.append((5000, lambda: w.spawn(op_register(A, "S1", S1))))
                 checkpoints.append(5000 + 800 + SETTLE_MS)
                 checkpoints.append(5000 + 800 + SETTLE_MS + 5_400_000)
+            elif self.name == "reregister":
+                # a service is withdrawn and later registered again from the same description object with another port
+                ops.append((v["browse_at"], lambda: start_browser("B/a", B, TA)))
+                ops.append((1000, lambda: w.spawn(op_register(A, "S1", S1))))
+                ops.append((5000, lambda: w.spawn(op_unregister(A, "S1"))))
+                checkpoints.append(5000 + 300 + SETTLE_MS)
+                newer = Svc(S1.type, S1.name, S1.server, S1.port + 1, S1.text, S1.v4, S1.v6)
+                t_op = 5000 + 300 + SETTLE_MS + 200
+                ops.append((t_op, lambda: w.spawn(op_reregister(A, "S1", newer))))
+                checkpoints.append(t_op + 800 + SETTLE_MS)
             elif self.name == "stale-cache":
                 # the browsing host has been on the link all along and heard the announcements; its browser only starts when
                 # the cached pointer is past half (or most) of its 75 minutes, with nobody having refreshed it meanwhile
@@ -343,6 +361,7 @@ def plan(tier: str) -> List[Tuple[str, Dict[str, Any], int]]:
             ("leave", {"browse_at": 5000, "after": 30, "how": "unregister", "late": True, "socks": "dual"}, 2),
             ("leave", {"browse_at": 5000, "after": 130, "how": "close", "late": True, "socks": "dual"}, 2),
             ("idle", {"browse_at": 0}, 1), ("flap", {"browse_at": 0}, 1),
+            ("reregister", {"browse_at": 0}, 1), ("reregister", {"browse_at": 30_000, "late": True}, 1),
             ("update-queued", {"browse_at": 1850, "update_at": 2000, "qm": True}, 1),
             ("update-queued", {"browse_at": 1850, "update_at": 2000, "qm": True, "late": True}, 2),
             ("update-queued", {"browse_at": 1850, "update_at": 2600, "qm": True, "late": True}, 1),
